@@ -830,6 +830,13 @@ package fsutil
 //@   at call strings.HasPrefix: separator_terminated: specEndsWithSep(arg1) && (arg0 == path || specEndsWithSep(arg0))
 //@   at call filterFS.Walk.fn: not_skipped: !skip && walkErr == nil
 //@   at call filterFS.Walk.fn: map_consulted_first: fs.mapFn == nil || cnt(MapFn) > old(cnt(MapFn))
+// what is reported - for the entry itself and for every lazily reported ancestor - is the very
+// stat the map function was shown last (so its rewrite is what the consumer sees), under the
+// (possibly rewritten) path of that stat
+//@   at call filterFS.Walk.fn: reports_a_stat: isptr(arg1, DirEntryInfo) && asptr(arg1, DirEntryInfo) != nil && asptr(arg1, DirEntryInfo).Stat != nil
+//@   at call filterFS.Walk.fn: under_its_path: arg0 == asptr(arg1, DirEntryInfo).Stat.Path
+//@   at call filterFS.Walk.fn: reports_the_mapped_stat: asptr(arg1, DirEntryInfo).Stat == stat || (fs.mapFn != nil && asptr(arg1, DirEntryInfo).Stat == arg(MapFn, 1)) || (fs.mapFn == nil && asptr(arg1, DirEntryInfo).Stat == parentStat)
+//@   at call filterFS.mapFn#0: map_sees_the_entry_stat: arg1 == stat && arg0 == stat.Path
 
 // ---------------------------------------------------------------------------
 // tarwriter.go (C17)
